@@ -54,6 +54,7 @@ func main() {
 	}
 	c := Load(nil, "")
 	currentProp = *prop
+	buildRenames(c)
 	fn(c, *tier)
 }
 
